@@ -50,6 +50,15 @@ int gDirCounter = 0;
 Session gS;
 std::vector<std::string> gWritten;   // every message text accepted so far (oracle)
 
+/// what the oracle saw after the previous event of the case (for the clause "one event drops at most the oldest
+/// generation"): number of retained messages, of messages in the oldest generation file, of generation files,
+/// and of messages written
+struct Snap {
+   bool valid = false;
+   size_t flat = 0, oldest = 0, gens = 0, written = 0;
+};
+Snap gPrev, gNow;
+
 void rmDir(const std::string& d) {
    if (d.empty()) return;
    if (DIR* dp = ::opendir(d.c_str())) {
@@ -140,6 +149,11 @@ std::string oracle(const std::vector<std::string>& gens) {
    // (1) retained messages = suffix of the written ones, in order
    std::vector<std::string> flat;
    for (auto& l : lines) flat.insert(flat.end(), l.begin(), l.end());
+   gNow.valid = true;
+   gNow.flat = flat.size();
+   gNow.oldest = lines.empty() ? 0 : lines.front().size();
+   gNow.gens = gens.size();
+   gNow.written = gWritten.size();
    if (flat.size() > gWritten.size() ||
        !std::equal(flat.begin(), flat.end(), gWritten.end() - static_cast<long>(flat.size())))
       return "!! retained messages are not the most recent ones in order (retained " + std::to_string(flat.size()) +
@@ -148,6 +162,20 @@ std::string oracle(const std::vector<std::string>& gens) {
    if (gens.size() < static_cast<size_t>(std::max(gS.gens, 1)) && flat.size() != gWritten.size())
       return "!! messages lost although fewer generations than configured exist (retained " +
              std::to_string(flat.size()) + " of " + std::to_string(gWritten.size()) + ")";
+   // (1c) the most recent message is retained (given (1): the retained messages are not empty) -- except with a
+   //      single generation file that is empty (Lean: C15_latest_retained / C15_latest_lost_iff)
+   const size_t maxGens = static_cast<size_t>(std::max(gS.gens, 1));
+   if (!gWritten.empty() && flat.empty() && (maxGens >= 2 || (!lines.empty() && !lines.back().empty())))
+      return "!! the most recent message is not retained (0 of " + std::to_string(gWritten.size()) + ")";
+   // (1d) one event drops at most the oldest generation, and only when the configured number of files existed
+   //      (Lean: C15_drop_at_most_oldest); given (1) it is enough to count
+   if (gPrev.valid) {
+      size_t before = gPrev.flat + (gWritten.size() - gPrev.written);
+      size_t dropped = before >= flat.size() ? before - flat.size() : 0;
+      if (dropped != 0 && !(gPrev.gens >= maxGens && dropped == gPrev.oldest))
+         return "!! one event dropped " + std::to_string(dropped) + " retained messages; the oldest of " +
+                std::to_string(gPrev.gens) + " generations held " + std::to_string(gPrev.oldest);
+   }
    // (2) limit: only a generation that is one single message (which then does not fit a generation on its
    //     own: there is nowhere else to put it) may exceed it; a generation with two or more messages above the
    //     limit means a message was appended although it did not fit
@@ -175,7 +203,9 @@ std::string oracle(const std::vector<std::string>& gens) {
 std::string report() {
    std::vector<std::string> gens;
    std::string l = listing(&gens);
+   gNow = Snap();
    std::string o = oracle(gens);
+   gPrev = gNow;
    return o.empty() ? l : o + " :: " + l;
 }
 
@@ -190,6 +220,7 @@ int main() {
          gDir = base + "_" + std::to_string(gDirCounter++);
          ::mkdir(gDir.c_str(), 0755);
          gWritten.clear();
+         gPrev = Snap();
          return "ok";
       }
       if (gDir.empty()) return "bad-op";
